@@ -943,7 +943,7 @@ message Other { string name = 1; }
 		})
 	}
 	// --- random files ----------------------------------------------------------------------------------------------
-	for b := 0; b < r.Scale(1200, 40000); b++ {
+	for b := 0; b < r.Scale(1200, 400000); b++ {
 		r.Do(fmt.Sprintf("rand/%d", b), func(c *rt.C) {
 			rng := c.Rand()
 			optProb := []int{0, 2, 4, 8}[b%4]
